@@ -20,7 +20,7 @@ CFG = {
     "technique": "Coq proof (induction over property lists, vertex records, face records; byte/token level round trip) "
                  "+ vm_compute correspondence check",
     "design_ref": "DESIGN.md §4 C04",
-    "n_quick": 80, "n_thorough": 1000,
+    "n_quick": 60, "n_thorough": 1000,
     "rule": "random point clouds and triangle meshes (0-12 vertices, 0-10 triangles; welded, unwelded, unreferenced "
             "vertices, degenerate and empty face lists) with any subset of Position/Normal/Color/TexCoord/FDC/Opacity/"
             "Scale/Rotation and 0-3 user-named attributes of dimension 1-4, float32-exact values (dyadic, integers, -0, "
